@@ -37,7 +37,7 @@ def main():
         trusted=['Lean 4.33 kernel', 'axioms: propext, Classical.choice, Quot.sound only',
                  'py2lean translator (evaluator), grammar2lean dump (declarations), plurallr2lean dump (rply LALR tables of the live parser; states/productions renumbered canonically)',
                  'hand-written lexer model and LR driver loop (rply LexerStream.next / LRParser.parse / _reduce_production + lib/intexpr.py action functions): tied to the real parser by the '
-                 'plural-parse and plural-lr streams (outcome, tree, sequence of reductions); rply\'s table CONSTRUCTION is not modelled - its output is dumped and proved about',
+                 'plural-parse and plural-lr streams (outcome, tree, sequence of reductions); rply\'s table CONSTRUCTION is not modelled - its output is dumped and proved to accept exactly the declared grammar with the C trees',
                  'Spec.mathEval / Spec.D / Spec.Amb / Spec.Tokens / Spec.PluralY are my reading of ISO C and plural.y'],
         explanation='Proved for all inputs: eval_iff_C, eval_fails_iff, eval_error_kinds, eval_value_range (generated Evaluator = lazy Z semantics under the in-range side '
                     'condition, any width >= 1); grammar_pin, lr_tables_pin (declarations handed to rply / table columns = plural.y, by decide on the regenerated dumps); lex_complete_sound, '
@@ -46,7 +46,8 @@ def main():
                     'accept_iff_plural_y (accepted token lists = language of plural.y\'s ambiguous grammar); parse_string_iff / accept_string_iff / reject_string_iff (end to end on strings, '
                     'no third outcome); lr_iff_parse / lr_iff_derives / lr_accept_iff_plural_y / lr_parse_string_iff (rply\'s LR driver over the LALR tables dumped from the live parser returns '
                     'e iff the C grammar derives e); lr_eq_parse / lr_never_crashes / lr_parse_string_eq (LR driver model = RD model as functions; the driver never reaches its internal crash outcome). '
-                    'OUTSTANDING: rply\'s table construction is not modelled (its output is dumped and proved about); lexer loop / LR driver loop / action functions are hand-modelled, tied by the streams.')
+                    'plural_y_is_declared_grammar / lr_language_is_declared_grammar (Spec.Amb = CFG language of the dumped productions = language of the dumped tables: rply\'s LALR construction validated for this grammar). '
+                    'OUTSTANDING (test-level): lexer loop / LR driver loop / action functions are hand-modelled, tied to the Python source by the streams only.')
 
 if __name__ == '__main__':
     common.main_wrapper(main)
